@@ -84,14 +84,21 @@ def build_rtf(seed: int, feature: str | None = None, twin: bool = False):
                 grid.append(grow)
             return "".join(xml), grid
 
-        def picture(wrapped=False):
+        def picture(wrapped=None):
+            """wrapped: True = 64 digits per line, False = one line, None = any legal layout (even / odd line width, LF / CRLF, upper case)."""
             nonlocal n_img
             n_img += 1
             codec = rng.choice(["png", "jpeg"])
             wpx, hpx = rng.randint(2, 40), rng.randint(2, 40)
             data = IMG.make(codec, wpx, hpx, rng.randrange(1 << 16))
             hexs = data.hex()
-            if wrapped:
+            if wrapped is None:
+                width, eol, upper = rng.choice([(0, "", False), (64, "\n", False), (63, "\n", False), (127, "\r\n", False), (128, "\r\n", True), (78, "\n", True)])
+                if upper:
+                    hexs = hexs.upper()
+                if width:
+                    hexs = eol.join(hexs[i:i + width] for i in range(0, len(hexs), width))
+            elif wrapped:
                 hexs = "\n".join(hexs[i:i + 64] for i in range(0, len(hexs), 64))
             exp.images.append({"sha": sha1(data), "ctype": "image/png" if codec == "png" else "image/jpeg", "w": None, "h": None, "unit": pos + 1})   # \\picw units differ between writers: size unclaimed
             return "{\\pict\\%sblip\\picw%d\\pich%d\\picwgoal%d\\pichgoal%d %s}\n" % (codec, wpx, hpx, wpx * 15, hpx * 15, hexs)
